@@ -252,15 +252,19 @@ func (s *EncryptionSession) In(seqNum uint32, prio bool) (
 		sh = s.prioSeqHandler
 	}
 
-	// Check if we need to rollover key.
-	if sh.RolloverRequired(seqNum) {
+	// Check if the frame claims to start the next key epoch.
+	// The sequence number is not authenticated at this point: only hand out
+	// the cipher of the next epoch here. The actual key rollover happens in
+	// Check(), which is called after the frame was authenticated with it.
+	if sh.RolloverIndicated(seqNum) {
 		if prio {
 			return nil, errors.New("prio sequence handler requested key rollover")
 		}
-		s.prioSeqHandler.Reset()
-		if err := s.rolloverInKey(); err != nil {
+		_, nextCipher, err := rolloverKey(s.inKey)
+		if err != nil {
 			return nil, fmt.Errorf("rollover in key: %w", err)
 		}
+		return nextCipher, nil
 	}
 
 	return s.inCipher, nil
@@ -329,10 +333,24 @@ func (s *EncryptionSession) rolloverOutKey() error {
 }
 
 // Check checks the given sequence number and returns an error if there is an issue.
+// It must only be called for frames that were successfully authenticated with
+// the cipher returned by In().
 func (s *EncryptionSession) Check(seqNum uint32, prio bool) error {
 	if prio {
 		return s.prioSeqHandler.Check(seqNum)
 	}
+
+	// If this (authenticated) frame starts the next key epoch, roll over now.
+	s.lock.Lock()
+	if s.reglSeqHandler.RolloverRequired(seqNum) {
+		s.prioSeqHandler.Reset()
+		if err := s.rolloverInKey(); err != nil {
+			s.lock.Unlock()
+			return fmt.Errorf("rollover in key: %w", err)
+		}
+	}
+	s.lock.Unlock()
+
 	return s.reglSeqHandler.Check(seqNum)
 }
 
@@ -401,6 +419,15 @@ func (sh *SequenceHandler) RolloverRequired(seqNum uint32) bool {
 		sh.highest = 0
 		return true
 	}
+}
+
+// RolloverIndicated reports whether the given sequence number indicates a key
+// rollover, without changing any state.
+func (sh *SequenceHandler) RolloverIndicated(seqNum uint32) bool {
+	sh.lock.Lock()
+	defer sh.lock.Unlock()
+
+	return sh.highest >= rolloverUpperBound && seqNum <= rolloverLowerBound
 }
 
 // Reset resets the sequence counters to zero.
